@@ -23,7 +23,13 @@ TRUSTED = ["scipy.optimize.isotonic_regression (mean functional) is outside the 
            "numpy lexsort / quantile / interp / unique are modelled by hand (Model/Isotonic.lean), tied by correspondence",
            "bootstrap resampling (numpy global RNG) is not modelled: lower<=upper and fixed-seed reproducibility are observed"]
 ASSUMPTIONS = ["forecasts / observations / weights are small dyadic rationals or NaN (float + - * and comparisons exact); "
-               "means compared to 1e-9", "infinite inputs are not generated", "float rounding is not modelled",
+               "means compared to 1e-9",
+               "infinite forecasts / observations (+inf / -inf, pairs of opposite infinities included) are generated and compared by "
+               "the oracle only (the Lean model / spec are rational): forecasts / counts always; the fit via a strictly increasing "
+               "finite relabelling of the forecast axis (Lean Spec) and, for infinite observations, on the extended reals where "
+               "defined (select / shift solvers; mean functional when every -inf observation precedes every +inf observation) — a "
+               "block whose mean / quantile is inf - inf (IEEE NaN) is compared on forecasts / counts only; infinite weights are "
+               "not generated", "float rounding is not modelled",
                "storage dtypes (int64 / int32 / int16 / int8 / uint8 / uint16 / float32 / bool, mixed per operand) hold exactly "
                "representable values; the expected fit is that of the VALUES (the Lean model / spec have no storage dtype); "
                "float32 observations on the quantile / custom-solver path are compared to 4e-6 (the code fits them in float32)"]
@@ -49,16 +55,22 @@ MANIFEST = dict(
          "STORAGE DTYPES: the same values stored as int64 / int32 / int16 / int8 / uint8 / uint16 / float32 / mixed numpy and xarray "
          "operands (integer counts, 0/1 events with probability forecasts; exhaustively every short sequence over the 3x3 pool) must give "
          "the exact max-min fit of the values (non-integer block means), the same result as their float64 copies, and, for a fixed seed, "
-         "the same bootstrap fits and bands as the float64 copies; a bool operand is rejected (ValueError) or fitted exactly.",
+         "the same bootstrap fits and bands as the float64 copies; a bool operand is rejected (ValueError) or fitted exactly. "
+         "INFINITE VALUES (oracle only): +inf / -inf forecasts and observations, in particular pairs of opposite infinities, are valid "
+         "pairs (only NaN removes a pair): fcst_sorted / fcst_counts must list every valid forecast and sum to the number of valid pairs "
+         "(also the bootstrap matrix has one column per valid pair), the fit must be that of the order-isomorphic finite forecasts "
+         "(max-min formula) and, with infinite observations, the extended-real fit where it is defined; exhaustively on all short "
+         "sequences over {-inf,1,+inf} x {-inf,0,2,+inf}.",
     note="Trusted: Lean kernel; propext/Classical.choice/Quot.sound; the hand model (no translator for this property) and the harness; "
          "scipy.optimize.isotonic_regression (used by the code for the mean functional) is OUTSIDE the proof — the PAV model with the "
          "weighted-mean solver is tied to it only by the correspondence check. Proved for the mean functional with positive weights "
          "(Props/C15MaxMin.lean): model result = Spec.isoFit (the oracle's max-min formula), permutation invariance; for quantile / "
          "custom solvers permutation invariance is observed by the oracle only. "
+         "Infinite forecasts / observations are outside the Lean model (rational values): that input class is compared by the oracle only. "
          "Bootstrap resampling uses numpy's global RNG and is not modelled: the band arithmetic is modelled on the matrix the code reports "
          "(lower <= upper proved there), reproducibility for a fixed seed is observed, not proved. "
          "Custom solvers are assumed to be the identity on a single observation (notes/C15.md, interpretation). Infinite inputs, dtype "
-         "checks and float rounding are not modelled; quantile levels sent to the model are dyadic. Storage dtypes are not modelled "
+         "checks and float rounding are not modelled (infinite inputs: oracle only); quantile levels sent to the model are dyadic. Storage dtypes are not modelled "
          "(the model is a function of the values): that input class is compared by the oracle; three dtype defect classes of the "
          "unchanged code (notes/C15.md: integer obs on the solver path, unsigned obs with a 0 in a tie group, non-float64/int64 "
          "forecasts with a tied smallest forecast) are tagged, listed as known findings and skipped in the correspondence.",
@@ -70,6 +82,9 @@ RULE = ("pairs (fcst, obs[, weight]) drawn from small dyadic pools with heavy ti
         "each operand stored as float64 or (35 % of the random cases + dedicated streams) as int64 / int32 / int16 / int8 / uint8 / uint16 / "
         "float32 / bool with values exactly representable there (integer counts, 0/1 events with k/8 probability forecasts), mixed per operand; "
         "exhaustive: every sequence up to a length over a 3-value pool, once as float64 and once in integer / float32 / mixed dtypes; "
+        "a dedicated stream with +inf / -inf written into forecast and / or observation slots (infinite forecasts only, infinite "
+        "observations only, a pair of opposite infinities, a pair of equal infinities, mixtures; also with bootstraps) and every short "
+        "sequence over {-inf,1,+inf} x {-inf,0,2,+inf}; "
         "distinct = distinct canonical case; "
         "non-trivial = at least two valid pairs")
 
@@ -784,6 +799,242 @@ def variants(case):
     return out
 
 
+# ------------------------------------------------------------------------------------------------ infinite inputs
+# +inf / -inf are legitimate VALUES of a forecast or an observation (an unbounded forecast, log(0) = -inf on a log scale):
+# a pair is dropped only if one of its entries is NaN.  The Lean model / spec work on rationals, so this input class is
+# compared BY THE ORACLE ONLY, on the extended reals:
+#   * fcst_sorted = the distinct forecasts of the valid pairs (infinite ones included), fcst_counts = their multiplicities,
+#     summing to the number of valid pairs — always;
+#   * the fit depends on the forecasts only through their order and ties: the expected fit is that of the same pairs with
+#     the forecast axis relabelled by a strictly increasing map (-inf -> below, +inf -> above every finite forecast), and that
+#     finite case goes to the Lean Spec (max-min formula) as usual;
+#   * infinite OBSERVATIONS: solvers that select / shift one observation (INF_SAFE) are exact on the extended reals — every
+#     clause is checked; mean functional: when every -inf observation lies at a smaller forecast than every +inf
+#     observation the max-min formula is defined (-inf up to the last -inf group, +inf from the first +inf group on, the
+#     finite max-min fit of the pairs in between); otherwise a block holds both signs, its mean is inf - inf (IEEE NaN):
+#     only forecasts / counts are compared there, likewise for the quantile / averaging solvers (numpy's lerp of an
+#     infinite order statistic is NaN).
+INF = float("inf")
+INF_SAFE = ("max", "min", "first", "last", "min_minus_len", "max_plus_len")
+
+
+def has_inf(case):
+    return any(math.isinf(x) for x in case["fcst"]) or any(math.isinf(x) for x in case["obs"])
+
+
+def relabel_map(case):
+    """strictly increasing relabelling of the forecast axis onto finite values (NaN stays NaN)"""
+    fin = [p[0] for p in valid_pairs(case) if not math.isinf(p[0])]
+    lo = (min(fin) if fin else 0.0) - 1.0
+    hi = (max(fin) if fin else 0.0) + 1.0
+    return lambda x: lo if x == -INF else (hi if x == INF else x)
+
+
+def inf_regime(case):
+    """'finite-obs' | 'ordered' (every -inf observation at a smaller forecast than every +inf observation, or one sign only)
+    | 'mixed-block' (some block must hold observations of both signs: its mean is undefined)"""
+    vp = valid_pairs(case)
+    neg = [p[0] for p in vp if p[1] == -INF]
+    pos = [p[0] for p in vp if p[1] == INF]
+    if not neg and not pos:
+        return "finite-obs"
+    if neg and pos and min(pos) <= max(neg):
+        return "mixed-block"
+    return "ordered"
+
+
+def inf_plan(case):
+    """(mode, L, U): mode 'full' = every clause on the relabelled case; 'mean-ordered' = -inf for forecasts <= L, +inf for
+    forecasts >= U, finite max-min fit in between; 'counts-only'"""
+    reg = inf_regime(case)
+    if reg == "finite-obs" or case["kind"] in INF_SAFE:
+        return "full", None, None
+    if case["kind"] == "mean" and reg == "ordered":
+        vp = valid_pairs(case)
+        neg = [p[0] for p in vp if p[1] == -INF]
+        pos = [p[0] for p in vp if p[1] == INF]
+        return "mean-ordered", (max(neg) if neg else None), (min(pos) if pos else None)
+    return "counts-only", None, None
+
+
+def _middle(case, L, U):
+    return [p for p in valid_pairs(case) if (L is None or p[0] > L) and (U is None or p[0] < U)]
+
+
+def inf_spec_case(case):
+    """the finite case whose max-min fit (Lean Spec) is needed for `case`, or None"""
+    if case["kind"] != "mean":
+        return None
+    mode, L, U = inf_plan(case)
+    m = relabel_map(case)
+    if mode == "full":
+        return dict(case, fcst=[m(x) for x in case["fcst"]])
+    if mode == "mean-ordered":
+        mid = _middle(case, L, U)
+        if mid:
+            return dict(case, fcst=[m(p[0]) for p in mid], obs=[p[1] for p in mid],
+                        weight=None if case["weight"] is None else [p[2] for p in mid])
+    return None
+
+
+def inf_class(case):
+    vp = valid_pairs(case)
+    t = []
+    if any(math.isinf(p[0]) for p in vp):
+        t.append("inf:fcst")
+    if any(math.isinf(p[1]) for p in vp):
+        t.append("inf:obs")
+    if any(math.isinf(p[0]) and math.isinf(p[1]) and p[0] != p[1] for p in vp):
+        t.append("inf:opposite-sign-pair")
+    if any(math.isinf(p[0]) and p[0] == p[1] for p in vp):
+        t.append("inf:same-sign-pair")
+    return t
+
+
+def _same_floats(a, b):
+    return len(a) == len(b) and all((x == y) or (math.isnan(x) and math.isnan(y)) for x, y in zip(a, b))
+
+
+def check_inf_property(case, r, spec=None, rerun=None):
+    """C15 on a case with infinite forecasts / observations (see the section comment); `spec` = c15.spec of
+    inf_spec_case(case) when that is not None"""
+    bad = []
+    vp = valid_pairs(case)
+    tags = dict(case_tags(case), infinite=True)
+    tol = tol_of(case)
+    if not vp:
+        if r.get("err") != "ValueError":
+            bad.append(("isotonic_fit", "no-valid-pairs-not-rejected", r.get("err", "a value"), "ValueError", tags))
+        return bad
+    if "err" in r:
+        bad.append(("isotonic_fit", "exception", r["err"] + ": " + r.get("msg", ""), "a fit", tags))
+        return bad
+    us = sorted(set(p[0] for p in vp))
+    cnt = [sum(1 for p in vp if p[0] == u) for u in us]
+    vals = r["regression_values"]
+    if not _same_floats(r["fcst_sorted"], us):
+        bad.append(("isotonic_fit", "fcst_sorted-not-distinct-valid-forecasts", r["fcst_sorted"], us, tags))
+        return bad
+    if r["fcst_counts"] != cnt:
+        bad.append(("isotonic_fit", "fcst_counts-wrong", r["fcst_counts"], cnt, tags))
+    if sum(r["fcst_counts"]) != len(vp):
+        bad.append(("isotonic_fit", "fcst_counts-sum", sum(r["fcst_counts"]), len(vp), tags))
+    if len(vals) != len(us):
+        bad.append(("isotonic_fit", "regression_values-shape-or-nan", vals, "%d values" % len(us), tags))
+        return bad
+    mode, L, U = inf_plan(case)
+    m = relabel_map(case)
+    if mode == "full":
+        c2 = dict(case, fcst=[m(x) for x in case["fcst"]], bootstraps=None)
+        r2 = dict(r, fcst_sorted=[m(x) for x in r["fcst_sorted"]])
+        for site, sig, ob, ex, _t in check_property(c2, r2, spec=spec, rerun=None):
+            bad.append((site, sig, ob, ex, tags))
+    elif mode == "mean-ordered":
+        mid_us = [u for u in us if (L is None or u > L) and (U is None or u < U)]
+        mid_vals = list(spec["regression_values"]) if spec is not None else []
+        if len(mid_vals) != len(mid_us):
+            bad.append(("isotonic_fit", "oracle-internal-middle-length", len(mid_vals), len(mid_us), tags))
+        else:
+            exp = [-INF for u in us if L is not None and u <= L] + mid_vals + [INF for u in us if U is not None and u >= U]
+            if not cmp_lists(vals, exp, tol):
+                bad.append(("isotonic_fit", "not-the-least-squares-fit", vals,
+                            [x if isinstance(x, float) else float(core.parse_fl(x)) for x in exp], tags))
+    # the same multiset of valid pairs presented differently
+    if rerun is not None:
+        for name, c2 in variants(case):
+            r2 = rerun(c2)
+            ok = ("err" not in r2 and _same_floats(r2["fcst_sorted"], r["fcst_sorted"]) and r2["fcst_counts"] == r["fcst_counts"]
+                  and len(r2["regression_values"]) == len(vals))
+            if ok and mode != "counts-only":
+                ok = all(core.close_ff(a, b, rtol=tol, atol=_at(tol)) for a, b in zip(r2["regression_values"], vals))
+            if not ok:
+                bad.append(("isotonic_fit", "result-changes-under-" + name,
+                            r2.get("err") or [r2["fcst_sorted"], r2["fcst_counts"], r2["regression_values"]],
+                            [r["fcst_sorted"], r["fcst_counts"], vals], dict(tags, variant=c2)))
+                break
+    # bootstrap: every valid pair takes part in the resampling (one column per valid pair), one band value per forecast
+    if case.get("bootstraps"):
+        if r["boot"].shape != (case["bootstraps"], len(vp)):
+            bad.append(("isotonic_fit", "bootstrap-matrix-shape", list(r["boot"].shape), [case["bootstraps"], len(vp)], tags))
+        if len(r["lower"]) != len(us) or len(r["upper"]) != len(us):
+            bad.append(("isotonic_fit", "band-shape", [len(r["lower"]), len(r["upper"])], len(us), tags))
+    return bad
+
+
+def check_any(case, r, spec=None, rerun=None):
+    if has_inf(case):
+        return check_inf_property(case, r, spec=spec, rerun=rerun)
+    return check_property(case, r, spec=spec, rerun=rerun)
+
+
+def any_spec_case(case):
+    """the case to send to c15.spec for `case` (None: no spec needed)"""
+    if has_inf(case):
+        return inf_spec_case(case)
+    return case if case["kind"] == "mean" else None
+
+
+def gen_inf_case(rng, kinds, boots=False, big=False):
+    """a random case (gen_case) with +inf / -inf written into forecast and / or observation slots: infinite forecasts only,
+    infinite observations only, a pair of OPPOSITE infinities (fcst=+inf, obs=-inf / fcst=-inf, obs=+inf), a pair of equal
+    infinities, independent mixtures; NaN slots, ties, weights, shapes, containers, layouts as in gen_case; float64 storage
+    (15 %: float32 forecasts / observations — infinities are representable there)"""
+    c = gen_case(rng, kinds, big=big, boots=boots, dtypes=False)
+    n = len(c["fcst"])
+    f, o = c["fcst"], c["obs"]
+    sgn = lambda: rng.choice([INF, -INF])
+    mode = rng.choice(["fcst", "fcst", "obs", "opposite", "opposite", "opposite", "same", "mixed", "mixed"])
+    k = rng.choice([1, 1, 2, 3])
+    slots = [rng.randrange(n) for _ in range(k)]
+    for i in slots:
+        if mode == "fcst":
+            f[i] = sgn()
+        elif mode == "obs":
+            o[i] = sgn()
+        elif mode == "opposite":
+            f[i] = sgn()
+            o[i] = -f[i]
+        elif mode == "same":
+            f[i] = sgn()
+            o[i] = f[i]
+        else:
+            if rng.random() < 0.6:
+                f[i] = sgn()
+            if rng.random() < 0.6:
+                o[i] = sgn()
+    if mode == "opposite" and rng.random() < 0.4:          # plus a finite / NaN neighbour sharing the infinite forecast
+        j = rng.randrange(n)
+        f[j] = f[slots[0]]
+    if rng.random() < 0.15:
+        c["dtypes"] = {"f": rng.choice(["float32", "float64"]), "o": rng.choice(["float32", "float64"]), "w": "float64"}
+    return c
+
+
+def enum_inf_cases(maxlen):
+    """every sequence up to a length over the pairs {-inf, 1, +inf} x {-inf, 0, 2, +inf} (mean functional and max solver)"""
+    pairs = list(itertools.product([-INF, 1.0, INF], [-INF, 0.0, 2.0, INF]))
+    for n in range(1, maxlen + 1):
+        for seq in itertools.product(pairs, repeat=n):
+            f = [p[0] for p in seq]
+            o = [p[1] for p in seq]
+            if n < maxlen or seq[0] <= seq[-1]:
+                yield mk_case(f, o)
+            yield mk_case(f, o, None, "max")
+
+
+def inf_corpus():
+    C = []
+    C.append(mk_case([1, 2, 3, INF, NAN, 2, 0.5, 4], [1, 5, 2, -INF, 4, NAN, 0, 3], None, "max", shape=[2, 4]))
+    C.append(mk_case([1, 2, 3, INF, NAN, 2, 0.5, 4], [1, 5, 2, -INF, 4, NAN, 0, 3], None, "mean", shape=[2, 4]))
+    C.append(mk_case([-INF, 1, 2, 3], [INF, 1, 2, 3], None, "max"))
+    C.append(mk_case([-INF, 1, 2, 3], [INF, 1, 2, 3], None, "mean"))
+    C.append(mk_case([INF], [-INF]))
+    C.append(mk_case([INF, INF, 1], [-INF, 3, 2], [1, 2, 3], "wmean"))
+    C.append(mk_case([-INF, 1, 1, INF], [0, 3, 1, 2], None, "quantile", 0.5))
+    C.append(mk_case([1, 2, 3, 4], [-INF, 1, 0, INF], [1, 2, 1, 1]))
+    return C
+
+
 def corpus_cases():
     """fixed regression inputs (always run)"""
     C = []
@@ -907,6 +1158,45 @@ def oracle(ctx, boost):
         ctx.tag("bootstrap-" + dtype_class(c))
         ctx.case("bootstrap-band-dtypes", describe(c), nontrivial=len(valid_pairs(c)) >= 2)
         report(ctx, "bootstrap-band-dtypes", c, check_property(c, r, spec=s if c["kind"] == "mean" else None, rerun=run_impl))
+    # 4. infinite forecasts / observations
+    oracle_infinite(ctx, boost)
+
+
+def oracle_infinite(ctx, boost):
+    """4. infinite forecasts / observations (oracle only: the Lean model / spec are rational)"""
+    rng = ctx.rng
+    mult = 5 if boost else 1
+    kinds = ["mean"] * 6 + ["quantile"] * 2 + list(INF_SAFE) + IDEMPOTENT
+    L = ctx.n(2, 3) if not boost else 3
+    ecases = list(enum_inf_cases(L))
+    ctx.exhaustive.append(f"infinite inputs: all (fcst,obs) sequences of length <= {L} over {{-inf,1,+inf}} x {{-inf,0,2,+inf}}, mean "
+                          f"functional and max solver: forecasts / counts always, the fit where the extended-real max-min formula is "
+                          f"defined ({len(ecases)} cases)")
+    batches = [("infinite-exhaustive", ecases, False)]
+    rcases = inf_corpus() + [gen_inf_case(rng, kinds) for _ in range(ctx.n(700, 8000) * mult)]
+    rcases += [gen_inf_case(rng, kinds, big=True) for _ in range(ctx.n(15, 150) * mult)]
+    batches.append(("infinite-random", rcases, True))
+    bcases = [gen_inf_case(rng, ["mean", "mean", "max", "median", "quantile", "min"], boots=True) for _ in range(ctx.n(60, 700) * mult)]
+    batches.append(("infinite-bootstrap", bcases, False))
+    allc = [c for _, cs, _ in batches for c in cs]
+    scs = [any_spec_case(c) for c in allc]
+    res = iter(core.run_driver("C15", [spec_op(sc) for sc in scs if sc is not None]))
+    specs = [next(res) if sc is not None else None for sc in scs]
+    k = 0
+    for batch, cs, rr in batches:
+        for c in cs:
+            s = specs[k]
+            k += 1
+            if not has_inf(c):                            # (the injected slot may have been overwritten: an ordinary case)
+                ctx.tag("inf:none")
+            for t in inf_class(c):
+                ctx.tag(t)
+            ctx.tag("inf-regime:" + inf_regime(c))
+            ctx.tag("inf-check:" + inf_plan(c)[0])
+            ctx.tag("inf-kind:" + c["kind"])
+            r = run_impl(c)
+            ctx.case(batch, describe(c), nontrivial=len(valid_pairs(c)) >= 2)
+            report(ctx, batch, c, check_any(c, r, spec=s, rerun=run_impl if rr else None))
 
 
 def replay(ctx, payload):
@@ -920,8 +1210,9 @@ def replay(ctx, payload):
     for k in ("bootstraps",):
         case.setdefault(k, None)
     spec = None
-    if case["kind"] == "mean":
-        spec = core.run_driver("C15", [spec_op(case)])[0]
-    bad = check_property(case, run_impl(case), spec=spec, rerun=run_impl)
+    sc = any_spec_case(case)
+    if sc is not None:
+        spec = core.run_driver("C15", [spec_op(sc)])[0]
+    bad = check_any(case, run_impl(case), spec=spec, rerun=run_impl)
     sig = payload.get("signature")
     return any(b[1] == sig for b in bad) if sig else bool(bad)
